@@ -157,10 +157,14 @@ type errAfterReader struct {
 	data []byte
 	n    int
 	off  int
+	err  error // the error to fail with (default ErrInjected)
 }
 
 func (r *errAfterReader) Read(p []byte) (int, error) {
 	if r.off >= r.n || r.off >= len(r.data) {
+		if r.err != nil {
+			return 0, r.err
+		}
 		return 0, ErrInjected
 	}
 	m := copy(p, r.data[r.off:min(r.n, len(r.data))])
@@ -183,7 +187,13 @@ func runWsyncCase(rt Failer, c *wsyncCase, slicings [][2]uint64) bool {
 		}
 		var aerr error
 		Recover(func() {
-			aerr = ctx.ComputeDiff(&errAfterReader{data: junk, n: c.AbortFirst}, wsync.NewBlockLibrary(sig), func(op wsync.Operation) error { return nil }, -1)
+			// (a compressed stream that was cut short fails with io.ErrUnexpectedEOF: that is an error of
+			// the source like any other, not the end of the content)
+			var ferr error
+			if c.AbortFirst%2 == 0 {
+				ferr = io.ErrUnexpectedEOF
+			}
+			aerr = ctx.ComputeDiff(&errAfterReader{data: junk, n: c.AbortFirst, err: ferr}, wsync.NewBlockLibrary(sig), func(op wsync.Operation) error { return nil }, -1)
 		})
 		Ev.Fault("diff_aborted_by_read_error_before_reuse", 1)
 		if aerr == nil {
@@ -295,6 +305,30 @@ func TestC11Enum(t *testing.T) {
 		}
 	}
 	Ev.Probe("block_sizes_of_several_MiB")
+	// tiny block sizes with content that ends exactly where the differ's internal buffer
+	// (2 blocks + one maximal data operation) is full, once and twice over, give or take a byte
+	for bs := 1; bs <= 3; bs++ {
+		bufLen := 2*bs + maxDataOp
+		for k := 1; k <= 2; k++ {
+			for d := -1; d <= 1; d++ {
+				n := k*bufLen + d
+				nw := make([]byte, n)
+				for i := range nw {
+					nw[i] = 'a'
+				}
+				c := &wsyncCase{BS: bs, Old: [][]byte{[]byte("b")}, New: nw, Preferred: -1}
+				if runWsyncCase(ft, c, [][2]uint64{{0, 0}}) {
+					return
+				}
+				nw2 := Bytes(uint64(n), n)
+				c = &wsyncCase{BS: bs, Old: [][]byte{nw2[:bs*3]}, New: nw2, Preferred: 0}
+				if runWsyncCase(ft, c, [][2]uint64{{0, 0}}) {
+					return
+				}
+			}
+		}
+	}
+	Ev.Probe("content_ending_exactly_at_the_internal_buffer_size")
 }
 
 // TestC11Small lets rapid sample the small space named in the property (bs 1..4, alphabet 2-3,
